@@ -17,28 +17,28 @@ import (
 const modPath = "github.com/brocaar/lorawan"
 
 type Engine struct {
-	repo     string
-	prog     *ssa.Program
-	pkgs     []*packages.Package
-	ssaPkgs  map[string]*ssa.Package
-	cf       *ContractFile
-	byFn     map[string]*Contract // ssa function String() -> contract
-	ifaceCt  map[string]*Contract // "(pkg.Iface).Method" -> contract
-	tags     *TypeTags
-	strIDs   map[string]int64
-	strByID  map[int64]string
-	globals  map[*ssa.Global]int64
-	gByObj   map[types.Object]*ssa.Global
-	allFuncs map[string]*ssa.Function
+	repo         string
+	prog         *ssa.Program
+	pkgs         []*packages.Package
+	ssaPkgs      map[string]*ssa.Package
+	cf           *ContractFile
+	byFn         map[string]*Contract // ssa function String() -> contract
+	ifaceCt      map[string]*Contract // "(pkg.Iface).Method" -> contract
+	tags         *TypeTags
+	strIDs       map[string]int64
+	strByID      map[int64]string
+	globals      map[*ssa.Global]int64
+	gByObj       map[types.Object]*ssa.Global
+	allFuncs     map[string]*ssa.Function
 	mapOrderSeed int
-	loadTime time.Duration
-	namedTypes []types.Type
-	pruneSolver *PruneSolver
-	fnIDs    map[*ssa.Function]int64
-	fnByID   map[int64]*ssa.Function
-	inits    map[string]*pkgInit
-	shortIdx map[string]*ssa.Function
-	thorough bool
+	loadTime     time.Duration
+	namedTypes   []types.Type
+	pruneSolver  *PruneSolver
+	fnIDs        map[*ssa.Function]int64
+	fnByID       map[int64]*ssa.Function
+	inits        map[string]*pkgInit
+	shortIdx     map[string]*ssa.Function
+	thorough     bool
 }
 
 func LoadEngine(repo string, patterns []string) (*Engine, error) {
